@@ -100,7 +100,18 @@ impl AssetExpr {
 #[derive(Serialize, Deserialize, Debug, Clone, PartialEq, Eq)]
 pub struct AdHocDirective {
     pub name: String,
+    #[serde(serialize_with = "serialize_in_key_order")]
     pub data: HashMap<String, Expression>,
+}
+
+/// Writes the entries of a hash map in key order, so that the encoding of an IR does not depend
+/// on the (randomly seeded) iteration order of the map.
+fn serialize_in_key_order<S: serde::Serializer>(
+    map: &HashMap<String, Expression>,
+    serializer: S,
+) -> Result<S::Ok, S::Error> {
+    let ordered: std::collections::BTreeMap<_, _> = map.iter().collect();
+    serializer.collect_map(ordered)
 }
 
 #[derive(Serialize, Deserialize, Debug, Clone, PartialEq, Eq)]
